@@ -406,7 +406,7 @@ pub fn exec_confirmed(c: &Case) -> (CaseResult, u32) {
 
 fn flow_strategy() -> BoxedStrategy<FlowEnd> {
     let len = || crate::props::c01::len_strategy(150_000);
-    (crate::props::c01::hs_strategy(), len(), len(), len(), proptest::sample::select(End::ALL.to_vec())).prop_map(|(hs, first, up, down, end)| FlowEnd { hs, first, up, down, end }).boxed()
+    (crate::props::c01::hs_strategy(), len(), len(), len(), prop_oneof![9 => proptest::sample::select(End::ALL.to_vec()), 1 => proptest::sample::select(vec![End::AppClosesClean, End::TargetClosesClean, End::AppResets, End::TargetResets, End::ColdUploadThenClose, End::TargetRefused])]).prop_map(|(hs, first, up, down, end)| FlowEnd { hs, first, up, down, end }).boxed()
 }
 
 fn case_strategy(tier: Tier, combo: Option<(Proto, Transport)>) -> BoxedStrategy<Case> {
@@ -496,5 +496,5 @@ pub fn run(ctx: &mut PropCtx) {
     }
     rt::run_list(ctx, &Teardown, "each-ending-on-each-transport", cases);
     ctx.mark_exhaustive("each-ending-on-each-transport", "every ending of the catalogue on every transport (protocol rotates with the seed), three flows each, then the descriptor baseline");
-    rt::run_sub(ctx, &Teardown, ctx.tier.pick(60, 900));
+    rt::run_sub(ctx, &Teardown, ctx.tier.pick(28, 600));
 }
